@@ -34,7 +34,17 @@ func main() {
 	cfgList := flag.String("configs", "", "comma separated build configurations (default: quick=default; thorough=default,debug,386)")
 	noEvidence := flag.Bool("no-evidence", false, "do not write evidence (used by the mutant audit)")
 	list := flag.Bool("list", false, "list properties with a check")
+	dump := flag.String("dump", "", "debug: dump an engine's view (flow, vers, sym)")
 	flag.Parse()
+	if *dump != "" {
+		p, err := Load(*repo, configs["default"])
+		if err != nil {
+			fmt.Println("ERROR:", err)
+			os.Exit(2)
+		}
+		dumpEngine(p, *dump)
+		return
+	}
 	if *list {
 		var ids []string
 		for id := range checks {
@@ -141,4 +151,17 @@ func summarize(prop string, reps []*Report) int {
 
 func init() {
 	checks["C11"] = checkC11
+}
+
+func dumpEngine(p *Program, what string) {
+	switch what {
+	case "flow":
+		newBuilderFlow(p).dump(p)
+	case "block":
+		var n int
+		fmt.Sscan(os.Getenv("BLOCK"), &n)
+		newBuilderFlow(p).dumpBlock(p, os.Getenv("FN"), n)
+	case "ctl":
+		newBuilderFlow(p).dumpCtl(p, os.Getenv("FN"))
+	}
 }
